@@ -1,5 +1,6 @@
 import RpcVerif.Model.Proto
 import RpcVerif.Model.Wire
+import RpcVerif.Model.ConnRun
 /-
   rpcmodel — the executable side of the correspondence. Reads one operation per line on
   stdin, prints one canonical result line per operation. Imports Model/ only (core Lean).
@@ -76,9 +77,17 @@ partial def loop (h : IO.FS.Stream) (out : IO.FS.Stream) (step : List String →
   out.putStrLn (step (tokens line))
   loop h out step
 
+partial def loopSt {σ : Type} (h : IO.FS.Stream) (out : IO.FS.Stream) (step : σ → List String → σ × String) (st : σ) : IO Unit := do
+  let line ← h.getLine
+  if line.isEmpty then return ()
+  let (st', o) := step st (tokens line)
+  out.putStrLn o
+  loopSt h out step st'
+
 def main (args : List String) : IO UInt32 := do
   let stdin ← IO.getStdin
   let stdout ← IO.getStdout
   match args with
   | ["wire"] => loop stdin stdout wireStep; return 0
+  | ["conn"] => loopSt stdin stdout RpcVerif.K.connStep none; return 0
   | _ => IO.eprintln "usage: rpcmodel wire"; return 2
